@@ -30,6 +30,12 @@ CHECKS = {
  "C07": ("exploration", "differential monitor: seven single-game reply models vs the real decoders (scripted transport; Eco over a real loopback HTTP server)",
          "FFOW, Savage 2, JC2-MP, Mindustry, The Ship, Battalion 1944 (all 64 subsets of its rule overrides) and Eco replies generated from random states must come back field for field; an Eco reply lacking a member must fail rather than be filled in.",
          "Implementation-defined formats (DESIGN Appendix A.8); Eco floats restricted to values the JSON library parses exactly.", "4 C07"),
+ "C01": ("exploration", "M-panic + M-step monitors over hostile reply scripts (truncation sweep at every byte offset, byte-boundary sweep, structured random mutation) for every public entry point; sharded worker processes attribute aborts",
+         "138 entry points (every protocol query, per-game wrappers, master-server service, generic dispatch for every GAMES entry) x settings are run against static hostile scripts derived from well-formed model exchanges: every reply of 276 fixed exchanges cut at every byte offset, every byte set to 8 boundary values, and 2.5e5 (quick) / 1.2e7 (thorough) randomly mutated exchanges. Refuting events: a panic (overflow traps on), a worker death, or more socket operations after the script fell silent than the protocol allows. The run fails if any entry point never consumed a reply; the outcome histogram per protocol family is in the evidence.",
+         "Scripted transport instead of sockets (virtual timeouts); CPU-only hangs are seen only by the wall-clock watchdog; Eco/ureq not covered here.", "4 C01"),
+ "C13": ("exploration", "M-alloc (counting global allocator, per-thread peak/largest request) + send/receive counters from the transport log over the C01 hostile workloads biased to extreme length/count fields",
+         "Same entry points and mutators as C01, biased towards extreme values in length/count/size/index positions (binary extremes, extreme decimal strings, VarInt inflation, fragment-header values). Per query: peak live <= 64 MiB, largest single request <= 16 MiB, sends <= request units x (retries+1) + datagrams received. The evidence lists the maxima observed per protocol family with their witnesses.",
+         "Allocation is measured on the query thread relative to the start of the query; requests above 1 GiB are refused by the harness allocator (the worker aborts and the supervisor attributes the case).", "4 C13"),
 }
 NOT_YET = {}
 for i in range(1, 21):
